@@ -439,6 +439,10 @@ fn mode_rescore(r: &mut StdRng, scn: usize, n_req: usize, out: &mut Vec<Value>) 
     } else {
       obs_full(&Err("not run".to_string()))
     };
+    // fixed-point arithmetic in TLC is 32-bit: the absolute score oracle is applied only to
+    // scores far below the bound (nested field_value_factor functions reach millions)
+    let moderate = |r: &std::result::Result<SearchResult, String>| r.as_ref().map(|x| x.hits.iter().all(|h| h.score.abs() < 1000.0)).unwrap_or(true);
+    let absolute = absolute && moderate(&base) && moderate(&res);
     searches.push(json!({
       "ev": "search", "check": "rescore", "prop": "C19", "absolute": absolute, "exec": exec,
       "window": window, "mode": if mode.is_empty() { "total" } else { mode }, "rq": rq_abs,
